@@ -113,7 +113,8 @@ def make_qarg(spec):
     query object): a list of filters, a bare Filter, None, or -- spec["fset"] -- a FilterSet object."""
     q = mk_filters(spec["q"])
     if spec.get("fset"):
-        return FilterSet(q), q
+        fs_ = FilterSet(q)
+        return fs_, list(fs_)          # (FilterSet drops repeated filters on construction)
     if spec.get("bare") and len(q) == 1:
         return q[0], q
     if spec.get("none") and not q:
